@@ -21,7 +21,7 @@ import (
 // intact; closing one listener must leave the other one serving; closing both must not crash anything.
 func twoListeners(c *fw.Ctx, index int) {
 	r := fw.Rand(c.Seed, "c13two", index)
-	lw, err := hmods.LoadWrapper(caddy.ActiveContext(), routesJSON(2000, false))
+	lw, err := hmods.LoadWrapper(caddy.ActiveContext(), routesJSON(2000, false, false))
 	if err != nil {
 		c.Violation("C13 config rejected", err.Error(), nil)
 		return
